@@ -226,6 +226,24 @@ def cases(rng, tier, shard, nshards):
     for k in range(shard, len(pairs), nshards):
         j1, j2 = pairs[k]
         yield elbow(rng, arm(rng, tier), arm(rng, tier), j1, j2)
+    # one very long, steep elbow with a faint corner per shard (thousands of segments per arm, slopes one step of 1/8 apart):
+    # only the single-pass L-method, whose residuals have to stay exactly zero at the corner
+    la, lb = int(rng.integers(3000, 3600)), int(rng.integers(3000, 3600))
+    sg = 1 if rng.random() < 0.5 else -1
+    e = elbow(rng, la, lb, sg * 64, sg * 63)
+    gaps = np.full(la + lb, 4, dtype=np.int64)
+    gaps[la - 1] = gaps[la] = 1
+    m_, e_ = int(rng.integers(-500, 501)), int(rng.integers(0, 4))
+    pts, c = build(e['x0'], gaps, la, sg * 64, sg * 63, m_, e_)
+    # a performance curve: shifted by a whole number so that y >= 0 (ordinates up to ~2e5: this class alone goes beyond the
+    # |value| < 2^17, |m| <= 4096 window of the other generators - the statement puts no bound on the offsets)
+    m_ = m_ + int(np.ceil(max(0.0, -float(pts[:, 1].min())))) * 2 ** e_
+    pts, c = build(e['x0'], gaps, la, sg * 64, sg * 63, m_, e_)
+    if np.all(np.abs(pts) < 2.0 ** 18):
+        e.update({'points': pts, 'c': c, 'gaps': gaps, 'm': m_, 'e': e_, 'shifted': True, 'layout': 'C',
+                  'cls': e['cls'] + ':very-long-faint',
+                  'skip': ['elbow:curvature', 'elbow:dfdt', 'elbow:menger', 'elbow:lmethod.knee', 'elbow:kneedle']})
+        yield e
     for i in range(META['long_per_shard']):
         j1, j2 = slopes_of(rng, SHAPES[(shard + i) % len(SHAPES)])
         long_ = int(rng.integers(150, 2001))
@@ -267,8 +285,9 @@ def run_case(ctx, mods, case):
     # the stored points must be exactly the elbow described by the parameters (generator self-check)
     if not (cref == c and ref.shape == values.shape and np.array_equal(ref, values) and n == la + lb + 1
             and la >= 3 and lb >= 3 and j1 != j2 and abs(j1) <= 64 and abs(j2) <= 64
-            and abs(case['m']) <= 4096 and 0 <= case['e'] <= 3
-            and np.all(values * 8.0 == np.round(values * 8.0)) and np.all(np.abs(values) < 2.0 ** 17)):
+            and abs(case['m']) <= (4096 if 'very-long-faint' not in str(case.get('cls')) else 2 ** 22) and 0 <= case['e'] <= 3
+            and np.all(values * 8.0 == np.round(values * 8.0))
+            and np.all(np.abs(values) < (2.0 ** 17 if 'very-long-faint' not in str(case.get('cls')) else 2.0 ** 18))):
         raise AssertionError('generator produced a curve outside the stated elbow family')
     pts = gen.present(values, case['layout'])
     cls = case['cls']
